@@ -183,3 +183,34 @@ def gen_C20(rng, tier):
         p.tag('threads%d' % nthreads)
         progs.append(p)
     return progs
+
+
+def extra_C20(rng, tier, progs, results):
+    """fact extraction on the current source: the footprint argument of QeepProps/C20.lean assumes that the library
+       keeps no unsynchronised mutable package-level state"""
+    import subprocess, json
+    info = {}
+    viol = []
+    ex = os.path.join(runner.BUILD, 'extract')
+    r = subprocess.run(['go', 'build', '-o', ex, '.'], cwd=os.path.join(runner.VERIF, 'extract'), env=runner.GOENV, capture_output=True, text=True)
+    if r.returncode != 0:
+        info['extract_error'] = (r.stdout + r.stderr)[-500:]
+        return {'violations': [], 'info': info}
+    out = subprocess.run([ex, '/repo'], capture_output=True, text=True).stdout
+    try:
+        facts = json.loads(out)
+    except Exception:
+        info['extract_error'] = out[-300:]
+        return {'violations': [], 'info': info}
+    info['facts'] = {k: facts[k] for k in ('package_vars', 'mutable_package_vars', 'go_statements', 'packages_importing_sync')}
+    unsync = [v for v in facts['mutable_package_vars'] if v.rsplit('.', 1)[0] not in facts['packages_importing_sync']]
+    raced = any(getattr(r, 'race_report', None) for r in results)
+    if unsync and not raced:
+        path = os.path.join(runner.VERIF, 'replays', 'C20-facts.txt')
+        os.makedirs(os.path.dirname(path), exist_ok=True)
+        with open(path, 'w') as fh:
+            fh.write('property C20: the source now has mutable package-level state without synchronisation: %s\n' % unsync)
+            fh.write('the footprint argument (QeepProps/C20.lean: operations write only freshly allocated nodes / their own graph) assumes there is none;\n')
+            fh.write('the race-detector run of this check found no failing schedule.\n')
+        viol.append((path, 'no-failing-input-found'))
+    return {'violations': viol, 'info': info}
